@@ -139,6 +139,8 @@ def run(ctx):
                             ctx.alarm('correspondence', 'slice_rgbd_targets: depth %r in planes %s, model says %s (positions %s)'
                                       % (float(flat2[idx]), got, want, ps32))
                             break
+    from .genslicers import check_generated_slicers
+    check_generated_slicers(ctx)           # the definitions regenerated from the source (Generated/Slicers.lean) vs the real code
 
 
 def replay(ctx, rep):
